@@ -316,10 +316,10 @@ def parse_unit(path):
             cur.loops.setdefault(k, []).append(Clause(sub, [t.strip() for t in tags], body, i + 1))
         elif d == "at":
             # at body_start | at loop K start | at before /re/ [#n] | at after /re/ [#n] | at end
-            m2 = re.match(r"(body_start|loop\s+\d+\s+start|before\s+/.*?/(?:\s*#\d+)?|after\s+/.*?/(?:\s*#\d+)?|stmt_after\s+/.*?/(?:\s*#\d+)?)\s*:?\s*(.*)$", full, re.S)
+            m2 = re.match(r"(body_start|loop\s+\d+\s+start|before\s+/.*?/(?:\s*#\d+)?|after\s+/.*?/(?:\s*#\d+)?|stmt_after\s+/.*?/(?:\s*#\d+)?)\s*(?:\[([^\]]*)\])?\s*:?\s*(.*)$", full, re.S)
             if not m2:
                 raise ValueError("%s:%d bad at-directive" % (path, i + 1))
-            cur.ats.append((m2.group(1), m2.group(2), i + 1))
+            cur.ats.append((m2.group(1), m2.group(3), i + 1, [x.strip() for x in (m2.group(2) or "").split(",") if x.strip()]))
         elif d == "closure":
             m2 = re.match(r"(\d+)\s*:?\s*(.*)$", full, re.S)
             cur.closures[int(m2.group(1))] = m2.group(2)
@@ -548,8 +548,8 @@ def emit_fn(out, u, fs, rules_used):
                 if not txt.endswith(","): txt += ","
                 lines_.append(("            " + txt, ("clause", u.name, fs.name, "loop%d.%s" % (kk, kind), c.tags, c.src_line, cid)))
         ins.append((off(body[lb]), "before", lines_))
-    for (where, txt, sline) in fs.ats:
-        origin = ("hint", u.name, fs.name, where, sline)
+    for (where, txt, sline, htags) in fs.ats:
+        origin = ("hint", u.name, fs.name, where, sline, htags)
         block = [("        " + l, origin) for l in txt.split("\n")]
         if where == "body_start":
             ins.append((off(body[0]) + 1, "after", block))
@@ -572,6 +572,8 @@ def emit_fn(out, u, fs, rules_used):
             else:
                 # after the end of the statement containing the match: next ';' at same nesting
                 j = mm.end()
+                if btext[mm.start():mm.end()].rstrip().endswith(";"):
+                    j = mm.end() - 1
                 depth = 0
                 while j < len(btext):
                     ch = btext[j]
